@@ -550,3 +550,23 @@ def precedence_classes(ctx):
              and is_name(x.comparators[0], 'type')]
     ctx.ob(not exact, u, 'no exact-type test stands in for "is a class"', '' if not exact else str(exact))
     ctx.floor(4)
+
+
+@rule('C09.27')
+def optional_keys_match_by_equality(ctx):
+    """an Optional key accepts exactly the target keys equal to it (``==``, as the plain literal
+    key does): the rejection is decided by ``target != self.key`` alone.  A further type test
+    makes ``Optional(1)`` miss the key ``1.0`` / ``True`` that the required key ``1`` accepts"""
+    u = ctx.unit('matching.Optional.glomit')
+    cfg = ctx.cfg(u)
+    tgt = u.params[1]
+    raises = {n for n in cfg.nodes if n.kind == 'stmt' and isinstance(n.ast, ast.Raise)}
+    ctx.require(raises, 'Optional.glomit: rejection not found')
+    tests = [t for t in cfg.nodes if t.kind == 'test']
+    pols = [(t, polarity(t.ast, '%s != self.key' % tgt)) for t in tests]
+    good = [t for t, e in pols if e and cfg.find_path(t, raises, labels=lambda l: l != 'exc', start_labels=lambda l, y=e: l == y) is not None]
+    others = [norm(t.ast) for t, e in pols if not e]
+    ok = len(good) == 1 and not others
+    ctx.ob(ok, u, 'an Optional key rejects exactly the keys that are != to it: %s' % [norm(t.ast) for t in tests],
+           '' if ok else 'further / other conditions decide: %s' % (others or [norm(t.ast) for t in tests]), node=u.node)
+    ctx.floor(1)
